@@ -1675,20 +1675,41 @@ func upgrade(x *wsflate.Extension, req []byte, chunks []int) (wireResult, string
 	rec := tx.NewRec()
 	u := ws.Upgrader{Negotiate: x.Negotiate}
 	hs, err := u.Upgrade(tx.RW{Reader: tx.NewSrc(req, chunks), Writer: rec})
-	r := wireResult{err: err, raw: string(rec.Bytes())}
+	return readResponse("ws.Upgrader", hs, err, rec.Bytes())
+}
+
+// upgradeHTTP sends the same request bytes through net/http's request parser
+// and ws.HTTPUpgrader with a hijackable ResponseWriter.
+func upgradeHTTP(x *wsflate.Extension, req []byte) (wireResult, string) {
+	hr, perr := http.ReadRequest(bufio.NewReader(bytes.NewReader(req)))
+	if perr != nil {
+		return wireResult{}, fmt.Sprintf("VERIF-INFRA: net/http cannot parse the harness's request: %v", perr)
+	}
+	rec := tx.NewRec()
+	w := tx.NewHijackable(nil, rec, 0)
+	u := ws.HTTPUpgrader{Negotiate: x.Negotiate}
+	_, _, hs, err := u.Upgrade(hr, w)
+	if w.Status != 0 || w.Body.Len() > 0 {
+		return wireResult{err: err}, fmt.Sprintf("ws.HTTPUpgrader answered through the ResponseWriter (status %d) instead of the hijacked connection", w.Status)
+	}
+	return readResponse("ws.HTTPUpgrader", hs, err, rec.Bytes())
+}
+
+func readResponse(who string, hs ws.Handshake, err error, out []byte) (wireResult, string) {
+	r := wireResult{err: err, raw: string(out)}
 	for _, o := range hs.Extensions {
 		r.hs = append(r.hs, readOption(o))
 	}
-	resp, perr := http.ReadResponse(bufio.NewReader(bytes.NewReader(rec.Bytes())), nil)
+	resp, perr := http.ReadResponse(bufio.NewReader(bytes.NewReader(out)), nil)
 	if perr != nil {
-		return r, fmt.Sprintf("response is not parseable HTTP: %v\n%q", perr, r.raw)
+		return r, fmt.Sprintf("%s: response is not parseable HTTP: %v\n%q", who, perr, r.raw)
 	}
 	resp.Body.Close()
 	r.status = resp.StatusCode
 	for _, v := range resp.Header["Sec-Websocket-Extensions"] {
 		es, perr := parseExtList(v)
 		if perr != nil {
-			return r, fmt.Sprintf("response Sec-WebSocket-Extensions %q: %v", v, perr)
+			return r, fmt.Sprintf("%s: response Sec-WebSocket-Extensions %q: %v", who, v, perr)
 		}
 		r.exts = append(r.exts, es...)
 	}
@@ -1704,11 +1725,40 @@ type wireCase struct {
 // checkWire: the response carries exactly the answer the list oracle allows,
 // and it is the same answer as negotiating the accepted offer directly.
 func checkWire(cfg spec, items []item, headers []string, chunks []int) string {
+	req := request(headers)
 	x := wsflate.Extension{Parameters: cfg.lib()}
-	r, msg := upgrade(&x, request(headers), chunks)
-	if msg != "" {
-		return msg
+	r, msg := upgrade(&x, req, chunks)
+	if msg == "" {
+		msg = judgeWire(cfg, items, r, &x)
 	}
+	if msg != "" {
+		return "ws.Upgrader: " + msg
+	}
+	y := wsflate.Extension{Parameters: cfg.lib()}
+	h, msg := upgradeHTTP(&y, req)
+	if msg == "" {
+		msg = judgeWire(cfg, items, h, &y)
+	}
+	if msg != "" {
+		return "ws.HTTPUpgrader: " + msg
+	}
+	// the two upgraders agree on the outcome of the same request
+	if (r.err == nil) != (h.err == nil) || (r.status == 101) != (h.status == 101) {
+		return fmt.Sprintf("ws.Upgrader: err=%v status %d; ws.HTTPUpgrader: err=%v status %d", r.err, r.status, h.err, h.status)
+	}
+	if fmt.Sprint(r.exts) != fmt.Sprint(h.exts) {
+		return fmt.Sprintf("ws.Upgrader answers %v, ws.HTTPUpgrader %v", r.exts, h.exts)
+	}
+	xp, xok := x.Accepted()
+	yp, yok := y.Accepted()
+	if xok != yok || (xok && xp != yp) {
+		return fmt.Sprintf("Accepted() after ws.Upgrader = %+v,%v; after ws.HTTPUpgrader = %+v,%v", xp, xok, yp, yok)
+	}
+	return ""
+}
+
+// judgeWire applies the list oracle to the outcome of one handshake.
+func judgeWire(cfg spec, items []item, r wireResult, x *wsflate.Extension) string {
 	first, bad := -1, -1
 	laterBad := false
 	for i, it := range items {
@@ -1839,6 +1889,88 @@ func TestWire(t *testing.T) {
 			t.Fatalf("%s\nconfig: %s\nSec-WebSocket-Extensions: %q", msg, cfg, headers)
 		}
 	})
+}
+
+// splits returns every way to cut a list of n elements into 1..3 contiguous
+// non-empty groups (as group end indices).
+func splits(n int) [][]int {
+	var out [][]int
+	for a := 1; a <= n; a++ {
+		if a == n {
+			out = append(out, []int{n})
+			continue
+		}
+		for b := a + 1; b <= n; b++ {
+			if b == n {
+				out = append(out, []int{a, n})
+			} else {
+				out = append(out, []int{a, b, n})
+			}
+		}
+	}
+	return out
+}
+
+// TestWireSplits: every list of 1..3 elements over {two offers every
+// configuration answers, one most decline, two malformed offers, a foreign
+// extension}, distributed over 1..3 Sec-WebSocket-Extensions header lines in
+// every possible way, through both upgraders.
+func TestWireSplits(t *testing.T) {
+	alpha := []item{
+		pmd(spec{CMWB: 15}, 0),
+		pmd(spec{CNCT: true, CMWB: 1, SNCT: true}, 1),
+		pmd(spec{SMWB: 9, CMWB: 12}, 0),
+		{El: ext{extName, []kv{{kCMWB, ""}, {kCMWB, "10"}}}, Malformed: true},
+		{El: ext{extName, []kv{{kSNCT, ""}, {kSMWB, "16"}}}, Malformed: true},
+		{El: ext{"permessage-deflate2", []kv{{kSMWB, "99"}}}},
+	}
+	cfgs := []spec{{}, {true, true, 9, 12}, {false, true, 15, 0}, {true, false, 0, 15}, {true, false, 8, 8}, {false, false, 12, 13}}
+	if hx.Thorough() {
+		cfgs = subConfigs()
+	}
+	var lists [][]item
+	for _, a := range alpha {
+		lists = append(lists, []item{a})
+		for _, b := range alpha {
+			lists = append(lists, []item{a, b})
+			for _, c := range alpha {
+				lists = append(lists, []item{a, b, c})
+			}
+		}
+	}
+	n := 0
+	for ci, cfg := range cfgs {
+		for li, items := range lists {
+			if !hx.Mine(ci*len(lists) + li) {
+				continue
+			}
+			for si, cut := range splits(len(items)) {
+				var headers []string
+				start := 0
+				for _, end := range cut {
+					var group []ext
+					for _, it := range items[start:end] {
+						group = append(group, it.El)
+					}
+					headers = append(headers, renderList(group, (li+si)%4))
+					start = end
+				}
+				n++
+				cl := listClass(cfg, items)
+				if len(headers) > 1 && !strings.Contains(cl, "malformed=0") {
+					hx.NonTrivial(hx.Hash("wiresplit", cfg, headers), func() interface{} {
+						return wireCase{Config: cfg.String(), Headers: headers}
+					})
+				}
+				if msg := checkWire(cfg, items, headers, nil); msg != "" {
+					hx.Failf(t, wireCase{Config: cfg.String(), Headers: headers}, "%s", msg)
+					return
+				}
+			}
+		}
+	}
+	hx.EvalN(n)
+	hx.Part(fmt.Sprintf("wire: %d configurations x all lists of 1..3 over a 6-element alphabet x every split over 1..3 header lines, both upgraders", len(cfgs)), int64(n), true)
 }
 
 // TestWireGridSample: a deterministic slice of the grid through the Upgrader.
